@@ -22,9 +22,13 @@ ID = 'C18'
 BUDGET = {'quick': 640, 'thorough': 8000}          # generated programs
 RULE = ('programs from the typed generator plus 1-2 ordered predicates (facts / single '
         'injectible-shaped rule / several rules / disjunction / distinct+aggregation / '
-        'functional / constant rows / reading another ordered predicate; key list = a '
+        'functional / constant rows / reading another ordered predicate / 25 %: a wide 5-10 '
+        'column table or a rule permuting its columns, with many ties on the leading keys and '
+        'mostly separate direction tokens, so that lists of >= 10 @OrderBy items occur in '
+        'about one target in eight; key list = a '
         'permutation or a minimal total prefix of the columns, or none (limit only), with '
-        'asc/desc spelled "c", "c asc", "c desc", "c DESC", "c","DESC"; K from 0 to n+2 or '
+        'asc/desc spelled "c", "c asc", "c desc", "c DESC" or as a separate token "c","DESC" / '
+        '"desc" / "asc" / "ASC"; K from 0 to n+2 or '
         'absent; @OrderBy/@Limit annotations before or after the rules or order_by()/'
         'limit() denotations on one rule; 25 % of the programs with type checking on so '
         'that CheckOrderByClause runs) and 1-3 consumers per program reading the ordered '
